@@ -167,30 +167,27 @@ def check_sac(ctx, idx):
             ctx.phi_fail("actor_unchanged_off_frequency", case, key="sac:actor-gating")
         if len(outs[0]) != 8:
             ctx.phi_fail("targets_not_returned", case, key="sac:outputs")
-        # the same with policy_frequency = 1 (actor updated on every iteration): two chained updates, the
-        # critics must be exactly those of two chained updates during which the actor was never updated
+        # the same with policy_frequency = 1 (actor updated in the very call): after one warm-up update without
+        # actor step (so that Adam's state is no longer fresh), ONE further update with an actor step must leave the
+        # critics exactly where the same update without actor step leaves them (the critic step comes first and
+        # must not see the actor loss)
         algo1 = SAC(buffer_size=B, batch_size=B, gamma=gamma, num_envs=1, policy_frequency=1, autotune=False,
                     q_width_size=4, q_depth=1)
-
-        def chain(al, its):
-            pol, os_, c1, c2, qo, la, ao = policy, opt_state, qf1, qf2, q_opt, log_alpha, a_opt
-            for it in its:
-                o = al.sac_train(pol, os_, buf, c1, c2, qf1t, qf2t, qo, la, ao, jnp.asarray(-1.0), jnp.asarray(it),
-                                 key=train_key)
-                pol, os_, c1, c2, qo, la, ao = o[0], o[1], o[2], o[3], o[4], o[5], o[6]
-            return c1, c2
-
         try:
-            with_actor = jax.tree.leaves(chain(algo1, (0, 1)))
-            without_actor = jax.tree.leaves(chain(algo, (1, 3)))
+            w = algo.sac_train(policy, opt_state, buf, qf1, qf2, qf1t, qf2t, q_opt, log_alpha, a_opt,
+                               jnp.asarray(-1.0), jnp.asarray(1), key=train_key)
+            args = (w[0], w[1], buf, w[2], w[3], qf1t, qf2t, w[4], w[5], w[6], jnp.asarray(-1.0))
+            k2 = jr.key(int(rng.integers(0, 2**31)))
+            with_actor = algo1.sac_train(*args, jnp.asarray(0), key=k2)
+            without_actor = algo.sac_train(*args, jnp.asarray(1), key=k2)
             ctx.count("sac_train:policy_frequency=1")
-            if not all(ctx.close(np.asarray(x, np.float64), np.asarray(y_, np.float64), 4.0)
-                       for x, y_ in zip(with_actor, without_actor)):
+            la, lb = jax.tree.leaves((with_actor[2], with_actor[3])), jax.tree.leaves((without_actor[2], without_actor[3]))
+            if not all(ctx.close(np.asarray(x, np.float64), np.asarray(y_, np.float64), 1.0) for x, y_ in zip(la, lb)):
                 ctx.phi_fail("actor_loss_does_not_move_critics",
-                             {**case, "policy_frequency": 1, "note": "critics after two updates differ from the critics "
-                              "of two updates without actor steps"}, key="sac:critics-moved-pf1")
+                             {**case, "policy_frequency": 1, "note": "critics after an update with an actor step differ "
+                              "from the critics of the same update without actor step"}, key="sac:critics-moved-pf1")
         except (IndexError, TypeError) as e:        # return structure of sac_train not as assumed: skip, do not alarm
-            ctx.note(f"sac_train chaining skipped: {type(e).__name__}")
+            ctx.note(f"sac_train policy_frequency=1 comparison skipped: {type(e).__name__}")
     # (c) actor loss value
     keys = jr.split(jr.key(0), B)
     al = SAC.actor_loss(policy, buf, qf1, qf2, jnp.asarray(alpha), keys)
@@ -235,6 +232,43 @@ def check_dqn_train_path(ctx, idx):
         ctx.phi_fail("dqn_target_is_r_plus_gamma_not_terminated_double_q", case, key="dqn-train:loss")
     elif not ctx.close(implied_grad, np.asarray(m["grad"]), 16.0):
         ctx.phi_fail("targets_are_constants_no_gradient_through_bootstrap", case, key="dqn-train:grad")
+
+
+def check_dqn_train_with_target(ctx, idx):
+    """`dqn_train(policy, opt_state, buffer, target_policy)` — what `iteration()` runs — with DIFFERENT online and
+    target tables and plain SGD: the parameter delta of the online table is the semi-gradient of the model loss
+    (online table for Q(s,a) and for the arg-max, target table for the bootstrap value), the target is untouched."""
+    import optax
+    rng = ctx.rng
+    env = random_tabular(rng)
+    nS, nA = int(env.T.shape[0]), int(env.T.shape[1])
+    B = int(rng.integers(4, 12))
+    gamma = float(rng.choice([0.5, 0.9, 0.99]))
+    q_on, q_tg = rng.integers(-8, 9, (nS, nA)) / 4.0, rng.integers(-8, 9, (nS, nA)) / 4.0
+    online, target = TabularQPolicy(env, q_on), TabularQPolicy(env, q_tg)
+    buf, rows = _batch(rng, env, B, nS, box=False)
+    algo = DQN(buffer_size=B, batch_size=B, gamma=gamma, num_envs=1)
+    algo = eqx.tree_at(lambda a: a.optimizer, algo, optax.sgd(1.0))
+    opt_state = algo.optimizer.init(eqx.filter(online, eqx.is_inexact_array))
+    try:
+        out = algo.dqn_train(online, opt_state, buf, target, key=jr.key(int(rng.integers(0, 2**31))))
+    except (AttributeError, TypeError) as e:        # entry point renamed / re-shaped: not a verdict
+        ctx.note(f"dqn_train(policy, opt_state, buffer, target_policy, key=) not callable as assumed: {type(e).__name__}")
+        return
+    new_policy, log = out[0], out[-1]
+    implied_grad = np.asarray(online.q, np.float64) - np.asarray(new_policy.q, np.float64)
+    batch = [{"s": r["s"], "q": q_on[r["s"]], "action": r["a"], "reward": r["r"], "done": r["done"],
+              "timeout": r["timeout"], "online_next": q_on[r["s2"]], "target_next": q_tg[r["s2"]]} for r in rows]
+    m = ctx.drv.call("dqn_loss", gamma=gamma, n_states=nS, n_actions=nA, batch=batch)
+    case = {"kind": "dqn_train(target)", "gamma": gamma, "rows": rows, "q_online": q_on, "q_target": q_tg,
+            "implied_grad": implied_grad, "model_semi_grad": m["grad"],
+            "impl_loss": float(log["loss"]) if isinstance(log, dict) and "loss" in log else None, "model_loss": m["loss"]}
+    ctx.case({"k": "dqn-train-target", "idx": idx, "rows": rows}, True)
+    ctx.count("dqn_train_with_distinct_target")
+    if case["impl_loss"] is not None and not ctx.close(case["impl_loss"], m["loss"], 8.0):
+        ctx.phi_fail("dqn_target_is_r_plus_gamma_not_terminated_double_q", case, key="dqn-train-target:loss")
+    elif not ctx.close(implied_grad, np.asarray(m["grad"]), 16.0):
+        ctx.phi_fail("targets_are_constants_no_gradient_through_bootstrap", case, key="dqn-train-target:grad")
 
 
 def check_dqn_end_to_end(ctx, idx):
@@ -283,6 +317,7 @@ def check_dqn_end_to_end(ctx, idx):
 def run(ctx):
     for i in range(ctx.budget(4, 20)):
         check_dqn_train_path(ctx, i)
+        check_dqn_train_with_target(ctx, i)
     for i in range(ctx.budget(6, 30)):
         check_dqn_end_to_end(ctx, i)
     for i in range(ctx.budget(12, 80)):
